@@ -185,9 +185,45 @@ func runC31(c *Ctx) {
 					if as.Pos() < dupAppend.Pos() {
 						bad2 = "the block joins the covering set before it was compared with the kept blocks"
 					}
+					// the duplicate branch must leave the iteration of the child loop: `continue <childLoop>`
+					// (or a plain continue when the decision is taken directly in the child loop) or return
 					blk, _ := p.ParentOf(fg.Pkg, dupAppend).(*ast.BlockStmt)
-					if blk == nil || !terminates(blk.List) {
-						bad2 = "a block recorded as duplicate still joins the covering set"
+					leaves := false
+					if blk != nil && len(blk.List) > 0 {
+						switch last := blk.List[len(blk.List)-1].(type) {
+						case *ast.ReturnStmt:
+							leaves = true
+						case *ast.BranchStmt:
+							if last.Tok.String() == "continue" {
+								// which loop does it continue?
+								var target ast.Node
+								if last.Label != nil {
+									ast.Inspect(fg.Body(), func(x ast.Node) bool {
+										if ls, ok := x.(*ast.LabeledStmt); ok && ls.Label.Name == last.Label.Name {
+											target = ls.Stmt
+										}
+										return true
+									})
+								} else {
+									for par := p.ParentOf(fg.Pkg, last); par != nil; par = p.ParentOf(fg.Pkg, par) {
+										if _, ok := par.(*ast.RangeStmt); ok {
+											target = par
+											break
+										}
+										if _, ok := par.(*ast.ForStmt); ok {
+											target = par
+											break
+										}
+									}
+								}
+								if rs, ok := target.(*ast.RangeStmt); ok && rs.Value != nil && objOf(info, rs.Value) == child {
+									leaves = true
+								}
+							}
+						}
+					}
+					if !leaves {
+						bad2 = "a block recorded as duplicate can still reach the statement that adds it to the covering set"
 					}
 					return true
 				})
